@@ -61,6 +61,13 @@ func c18Configs(tier string) []c18Cfg {
 	out = append(out, c18Cfg{"counting", "drop", "PS", "panic"}, c18Cfg{"cep", "drop", "PS", "reenter-stats"}, c18Cfg{"global", "block", "PSG", "plain"},
 		// MATCH_RECOGNIZE delivers its flushed matches from inside Stop (a different dispatch path)
 		c18Cfg{"cep", "drop", "PS", "reenter-addsink"}, c18Cfg{"cep", "drop", "PS", "panic"}, c18Cfg{"cep", "block", "PSG", "reenter-addsink"})
+	// no concurrent Stop: a sink that panics on its first batch must not keep the later rows from being
+	// processed and delivered (liveness clause; with a racing Stop nothing can be demanded), and the panic
+	// must not escape through EmitSync
+	for _, k := range []string{"direct", "analytic", "counting", "global"} {
+		out = append(out, c18Cfg{k, "drop", "P", "panic"})
+	}
+	out = append(out, c18Cfg{"direct", "drop", "E", "panic"}, c18Cfg{"direct", "drop", "PE", "panic"}, c18Cfg{"analytic", "block", "PE", "panic"})
 	if tier == "thorough" {
 		for _, k := range c18KindOrder {
 			for _, sink := range []string{"panic", "reenter-stats"} {
@@ -209,6 +216,13 @@ func c18Oracle(cfg c18Cfg, res *sched.Result, o *c18Obs) *explore.Failure {
 	}
 	if o.stopVirtualNs >= grace || o.secondStopNs >= grace {
 		return fail("stop-needed-grace-timer", fmt.Sprintf("with well-behaved sinks Stop returned only through its 5s grace timer (Stop %d ns, second Stop %d ns)", o.stopVirtualNs, o.secondStopNs))
+	}
+	if cfg.Sink == "panic" && !strings.Contains(cfg.Threads, "S") {
+		// rows offered to the engine: 2 per producer, 1 per EmitSync caller; each is one batch for these kinds
+		want := 2*strings.Count(cfg.Threads, "P") + strings.Count(cfg.Threads, "E")
+		if o.sinkCalls < want {
+			return fail("rows-after-sink-panic-not-delivered", fmt.Sprintf("the sink panicked on its first batch and was invoked %d time(s) in all; %d rows were offered and every one forms its own batch", o.sinkCalls, want))
+		}
 	}
 	if o.sinkAfterStop > 0 {
 		return fail("sink-after-stop", fmt.Sprintf("%d sink invocation(s) after Stop had returned", o.sinkAfterStop))
